@@ -311,3 +311,11 @@ def py_mod(a, b):
 
 
 pow10 = z3.Function('pow10', I, I)
+
+
+def set_budget(solver, ms):
+    """solver budget for the checks made *while generating* obligations (path feasibility, invariant inference):
+    a deterministic resource limit (z3 rlimit, about 5000 units per millisecond on this machine) so that what is
+    generated does not depend on how busy the machine is; the wall-clock timeout is only a distant backstop"""
+    solver.set('rlimit', int(ms) * 5000)
+    solver.set('timeout', max(20 * int(ms), 30000))
